@@ -49,6 +49,7 @@ Init ==
     term    |-> FALSE,     \* a termination cause was injected / the connection is ending
     wrbReal |-> FALSE,     \* the back-pressure in force was signalled by the transport (not injected)
     stall   |-> FALSE,     \* the peer does not read (the transport is capped)
+    allOk   |-> FALSE,     \* the scenario guarantees that no send can fail locally from here on (marker expect_all_ok)
     stops   |-> 0,
     stopProto |-> FALSE,
     wrb     |-> FALSE,
@@ -217,6 +218,10 @@ OnSendDone(mm, ev) ==
                  IN IF m.ver = 5 /\ kind \in {"q1", "stream1", "q2", "sub", "unsub"} /\ ev.r # a.r
                       THEN Fail(m1, "C06:returned-contents-differ-from-acknowledgement")
                       ELSE m1
+  ELSE IF m.allOk /\ Healthy(m) /\ LocalFailure(ev.k)
+     THEN \* automatic identifiers, window not exceeded, nothing streamed, orderly peer: the send must go through (e.g. the
+          \* identifier counter handed out an identifier twice after its wrap-around at 65535)
+          Fail(m0, "C06:send-failed-locally-although-nothing-was-wrong")
   ELSE IF ev.k = "PacketIdInUse" /\ Healthy(m) /\ ev.id > 0 /\ ev.id \notin m.inuse /\ ev.id \notin m.snd[i].busy
      THEN [m0 EXCEPT !.suspects = @ \cup {ev.id}]
   ELSE IF ev.k = "ExpectPayload" /\ Healthy(m) /\ kind # "chunk" /\ ~MayOwePayload(mm)
@@ -285,6 +290,7 @@ Step(m, ev) ==
     [] ev.e = "quiet"   -> OnQuiet(m, ev)
     [] ev.e = "settled" -> OnSettled(m, ev)
     [] ev.e = "cap"     -> [m EXCEPT !.stall = (ev.n >= 0)]
+    [] ev.e = "mark" /\ ev.k = "expect_all_ok" -> [m EXCEPT !.allOk = TRUE]
     [] ev.e = "panic"   -> OnPanic(m, ev)
     [] ev.e \in {"peer_close", "io_err", "close", "conn_done", "stream_drop", "end"} ->
          [m EXCEPT !.term = TRUE]
